@@ -363,7 +363,10 @@ where
         let (new_laidx, n_pstack) =
             self.parser
                 .lr_cactus(None, laidx, laidx + 1, n.pstack.clone(), &mut None);
-        if n.pstack != n_pstack {
+        // The move made progress if it changed the stack or consumed a lexeme. Comparing stacks
+        // alone is not enough: shifting the same token again in a left-recursive list (reduce,
+        // reduce, shift) ends with a stack that is equal, by value, to the one we started with.
+        if n.pstack != n_pstack || new_laidx > laidx {
             let n_repairs = if new_laidx > laidx {
                 n.repairs.child(RepairMerge::Repair(Repair::Shift))
             } else {
